@@ -53,7 +53,10 @@ def _case(draw):
         if a is b:
             continue
         form = draw(st.sampled_from(["{z}", "[{z}]", "({z})", "see {z} there"]))
-        ln = draw(st.sampled_from([l for l in a["lines"] if "words" in l]))
+        wl = [l for l in a["lines"] if "words" in l]
+        if not wl:
+            continue
+        ln = draw(st.sampled_from(wl))
         ln["words"].append(W(form.format(z=b["zid"]), *([("links", "zid:" + b["zid"])] if form == "[{z}]" else [])))
     # a link / URL fragment whose id equals the NAME of a tag the note inherits ([#area], [@ctx]):
     # it is not that tag, so the inherited tag must still be made explicit
@@ -65,7 +68,10 @@ def _case(draw):
         if inherited and its and draw(st.booleans()):
             kind_, name = draw(st.sampled_from(inherited))
             it = draw(st.sampled_from(its))
-            ln = draw(st.sampled_from([l for l in it["lines"] if "words" in l]))
+            wl = [l for l in it["lines"] if "words" in l]
+            if not wl:
+                continue
+            ln = draw(st.sampled_from(wl))
             if name.replace("_", "a").isalnum() and not re.fullmatch(r"P\d|o|x|\d+", name):
                 w = draw(st.sampled_from([W(f"[#{name}]", ("links", "global:" + name)), W(f"[@{name}]", ("links", "ref:" + name))]))
                 ln["words"].append(w)
@@ -88,7 +94,10 @@ def _seq_case(draw):
             if i and draw(st.booleans()):
                 target = its[i - draw(st.integers(1, min(i, 2)))]
                 form = draw(st.sampled_from(["{z}", "[{z}]", "after {z} is done", "({z})"]))
-                ln = draw(st.sampled_from([l for l in it["lines"] if "words" in l]))
+                wl = [l for l in it["lines"] if "words" in l]
+                if not wl:
+                    continue
+                ln = draw(st.sampled_from(wl))
                 ln["words"].append(W(form.format(z=target["zid"]), *([("links", "zid:" + target["zid"])] if form == "[{z}]" else [])))
     moves = [{"zid": it["zid"], "dest": draw(st.sampled_from(["other", "other", "same", "missing+template"])),
               "marker": draw(st.sampled_from([None, "x", "~"])), "other": draw(st.integers(0, 5))}
@@ -202,15 +211,25 @@ def check(case, rec: Rec) -> None:
 
 def _inherits(case_dir, note) -> bool:
     own = note["body"]
+    # a tag counts as written on the note only as a word of its own (modulo wrapping punctuation)
+    own_words = {w.rstrip("),.?!;:").lstrip("(") for w in own.split()}
     for fld, sym in (("areas", "#"), ("contexts", "@"), ("people", "%"), ("projects", "+")):
         for t in note[fld]:
-            if sym + t not in own:
+            if sym + t not in own_words:
                 return True
     return any((k + "::") not in own for k in note["props"])
 
 
 def _one_move(zdir, cfg, note, rows, src_rel, dest_rel, dest_init, mv, rec, one, files):
     zid = note["zid"]
+    bw = note["body"].split()
+    while bw and (re.fullmatch(r"\d{6}", bw[0]) or bw[0] == zid):
+        bw.pop(0)
+    if bw and bw[0].endswith("::") and _inherits(None, note) and "move-headline-property-note" in rec.open_keys:
+        # input class of a known finding: the inherited metadata is inserted right behind the ZID, in
+        # front of the headline's "key::", which then is no property any more
+        rec.info["moves_excluded_by_known_finding"] = rec.info.get("moves_excluded_by_known_finding", 0) + 1
+        return
     src_before = (zdir / src_rel).read_text()
     dest_before = (zdir / dest_rel).read_text() if (zdir / dest_rel).exists() else None
     rels = sorted(set(files) | ({dest_rel} if dest_before is not None else set()))
